@@ -898,9 +898,39 @@ class _TableGet(ast.NodeTransformer):
                     and counts.get(st.targets[0].id) == 1 and None not in st.value.keys:
                 self.tables[st.targets[0].id] = st.value
 
+    def visit_FunctionDef(self, node):
+        # dict displays bound once to a local name that is only ever used as `name.get(..)` / `name[..]` (never mutated, never passed on)
+        saved = dict(self.tables)
+        stores, uses = {}, {}
+        for n in ast.walk(node):
+            if isinstance(n, ast.Name):
+                (stores if isinstance(n.ctx, ast.Store) else uses).setdefault(n.id, []).append(n)
+        for st in ast.walk(node):
+            if isinstance(st, ast.Assign) and len(st.targets) == 1 and isinstance(st.targets[0], ast.Name) and isinstance(st.value, ast.Dict) \
+                    and None not in st.value.keys and len(stores.get(st.targets[0].id, [])) == 1:
+                nm = st.targets[0].id
+                ok = True
+                for u in uses.get(nm, []):
+                    par = self.parents.get(id(u))
+                    if not (isinstance(par, ast.Attribute) and par.attr == "get"):
+                        ok = False
+                if ok:
+                    self.tables[nm] = st.value
+        self.generic_visit(node)
+        self.tables = saved
+        return node
+
     def visit_Call(self, node: ast.Call):
         self.generic_visit(node)
         f = node.func
+        if isinstance(f, ast.IfExp) and not any(isinstance(x, (ast.Call, ast.NamedExpr, ast.Await, ast.Yield)) for a in list(node.args) + [k.value for k in node.keywords] for x in ast.walk(a)):
+            # (f if c else g)(args)  ->  f(args) if c else g(args)      (call-free arguments: safe to repeat)
+            def call_of(fn_expr):
+                if isinstance(fn_expr, ast.IfExp):
+                    return ast.copy_location(ast.IfExp(test=fn_expr.test, body=call_of(fn_expr.body), orelse=call_of(fn_expr.orelse)), node)
+                return ast.copy_location(ast.Call(func=fn_expr, args=copy.deepcopy(node.args), keywords=copy.deepcopy(node.keywords)), node)
+            self.n += 1
+            return call_of(f)
         if not (isinstance(f, ast.Attribute) and f.attr == "get" and 1 <= len(node.args) <= 2 and not node.keywords):
             return node
         table = f.value if isinstance(f.value, ast.Dict) else self.tables.get(f.value.id) if isinstance(f.value, ast.Name) else None
@@ -920,6 +950,75 @@ class _TableGet(ast.NodeTransformer):
 
 def expand_table_lookups(tree: ast.Module) -> int:
     t = _TableGet(tree)
+    t.parents = {id(child): parent_ for parent_ in ast.walk(tree) for child in ast.iter_child_nodes(parent_)}
+    t.visit(tree)
+    if t.n:
+        ast.fix_missing_locations(tree)
+    return t.n
+
+
+# ---------------------------------------------------------------------------------------------------------------------
+# match statements (value / or / wildcard patterns)
+
+
+def _pattern_test(subject, pat):
+    """Condition AST for a pattern without captures, or None if the pattern is outside the supported subset."""
+    if isinstance(pat, ast.MatchValue):
+        return ast.Compare(left=copy.deepcopy(subject), ops=[ast.Eq()], comparators=[pat.value])
+    if isinstance(pat, ast.MatchSingleton):
+        return ast.Compare(left=copy.deepcopy(subject), ops=[ast.Is()], comparators=[ast.Constant(value=pat.value)])
+    if isinstance(pat, ast.MatchOr):
+        parts = [_pattern_test(subject, p) for p in pat.patterns]
+        if any(p is None for p in parts):
+            return None
+        return ast.BoolOp(op=ast.Or(), values=parts)
+    if isinstance(pat, ast.MatchAs) and pat.pattern is None and pat.name is None:
+        return True
+    return None
+
+
+class _MatchNorm(ast.NodeTransformer):
+    """`match s: case A: X  case B | C: Y  case _: Z` with value, singleton, or- and wildcard patterns (no captures, no
+    guards with captures) is the if / elif / else chain on `s == A`, `s == B or s == C`.  The subject must be free of calls
+    (it is repeated); otherwise it is bound to a temporary first."""
+
+    def __init__(self):
+        self.n = 0
+
+    def visit_Match(self, node):
+        self.generic_visit(node)
+        subj = node.subject
+        pre = []
+        if any(isinstance(x, (ast.Call, ast.NamedExpr, ast.Await)) for x in ast.walk(subj)):
+            self.n += 1
+            tmp = f"{_PREFIX}m{self.n}_subject"
+            pre.append(ast.copy_location(ast.Assign(targets=[ast.Name(id=tmp, ctx=ast.Store())], value=subj), node))
+            subj = ast.Name(id=tmp, ctx=ast.Load())
+        arms = []
+        for case in node.cases:
+            t = _pattern_test(subj, case.pattern)
+            if t is None:
+                return node
+            if case.guard is not None:
+                t = case.guard if t is True else ast.BoolOp(op=ast.And(), values=[t, case.guard])
+            arms.append((t, case.body))
+        chain = []
+        for t, body in reversed(arms):
+            if t is True:
+                chain = body
+            else:
+                chain = [ast.copy_location(ast.If(test=t, body=body, orelse=chain), node)]
+        self.n += 1
+        out = pre + (chain or [ast.copy_location(ast.Pass(), node)])
+        for s_ in out:
+            ast.fix_missing_locations(s_)
+        return out
+
+
+def normalise_match(tree: ast.Module) -> int:
+    if not hasattr(ast, "Match"):
+        return 0
+    t = _MatchNorm()
     t.visit(tree)
     if t.n:
         ast.fix_missing_locations(tree)
